@@ -35,7 +35,7 @@ func H_C15_comma() {
 		vunchanged(tok, "comma-refused-leaves-map-intact")
 		return
 	}
-	vreach("comma-accepted")
+	// (unreachable on a correct tree: a string with a comma is never a qualified name)
 	_, got, perr := ParseAnnotations(map[string]string{"cdi.k8s.io/vendor.class_dev0": res["cdi.k8s.io/vendor.class_dev0"]})
 	vassert("comma-parse-back-exact", perr == nil && len(got) == 1 && got[0] == d)
 }
